@@ -319,3 +319,113 @@ Proof.
   destruct (materialise_terminates cs rules ord F ND Hord) as [ds [inf E]].
   exists ds, inf. split; auto. eapply materialise_consistent; eauto.
 Qed.
+
+(* ---- what the final store consists of ---------------------------------------------------------
+   The store is (the start set) ++ (inferred_so_far), without repetition, where the start set is the
+   input when it is consistent and otherwise a maximal repair of maximum cardinality among the
+   repairs.  (Which one, and which consequences are kept, depends on the iteration order.) *)
+Definition mshape (base : list fact) (st : mstate) : Prop :=
+  m_ds st = m_all st /\ m_all st = base ++ m_inferred st /\ NoDup (m_all st).
+
+Lemma consider_shape : forall cs base st f, mshape base st -> mshape base (consider cs st f).
+Proof.
+  intros cs base st f [H1 [H2 H3]]. unfold consider.
+  destruct (violates cs (set_add f (m_all st))); simpl; [split; auto|].
+  destruct (mem f (m_ds st)) eqn:ED; simpl; [split; auto|].
+  rewrite H1 in ED. rewrite ED. simpl. apply mem_false in ED.
+  split; [|split]; simpl.
+  - rewrite H1. reflexivity.
+  - rewrite H2, app_assoc. reflexivity.
+  - apply NoDup_snoc; auto.
+Qed.
+
+Lemma round_shape : forall cs rules ord delta base st, mshape base st -> mshape base (round cs rules ord delta st).
+Proof.
+  intros cs rules ord delta base st H. unfold round.
+  assert (H0 : mshape base (MState (m_ds st) (m_all st) [] (m_inferred st))) by exact H.
+  revert H0. generalize (MState (m_ds st) (m_all st) [] (m_inferred st)). clear H st.
+  induction rules as [|r rules IH]; simpl; intros st H; auto.
+  apply IH. unfold fire. generalize (join_rule (fst r) (ord (m_all st)) (ord delta)). intros bs.
+  revert st H. induction bs as [|b bs IHb]; simpl; intros st H; auto.
+  apply IHb. generalize (snd r). intros l. revert st H.
+  induction l as [|c l IHl]; simpl; intros st H; auto.
+  apply IHl. apply consider_shape. exact H.
+Qed.
+
+Lemma mat_loop_shape : forall fuel cs rules ord delta base st st',
+  mshape base st -> mat_loop fuel cs rules ord delta st = Some st' -> mshape base st'.
+Proof.
+  induction fuel as [|fuel IH]; simpl; intros cs rules ord delta base st st' H E. discriminate.
+  pose proof (round_shape cs rules ord delta base st H) as H'.
+  destruct (is_nil (m_new (round cs rules ord delta st))).
+  - inversion E; subst. exact H'.
+  - eapply IH; eauto.
+Qed.
+
+Lemma max_by_len_max : forall (l : list (list fact)) acc best,
+  fold_left (fun best r => match best with
+                           | None => Some r
+                           | Some b => if (length r <? length b)%nat then Some b else Some r
+                           end) l acc = Some best ->
+  (forall r, In r l -> (length r <= length best)%nat) /\
+  (forall a, acc = Some a -> (length a <= length best)%nat).
+Proof.
+  induction l as [|x l IH]; simpl; intros acc best H.
+  - split; [intros r []|]. intros a Ha. rewrite Ha in H. inversion H; subst. lia.
+  - apply IH in H. destruct H as [H1 H2]. destruct acc as [b|].
+    + destruct (length x <? length b)%nat eqn:E.
+      * apply Nat.ltb_lt in E. pose proof (H2 b eq_refl). split.
+        -- intros r [<-|Hr]; auto. lia.
+        -- intros a Ha. inversion Ha; subst. auto.
+      * apply Nat.ltb_ge in E. pose proof (H2 x eq_refl). split.
+        -- intros r [<-|Hr]; auto.
+        -- intros a Ha. inversion Ha; subst. lia.
+    + pose proof (H2 x eq_refl). split.
+      * intros r [<-|Hr]; auto.
+      * intros a Ha. discriminate.
+Qed.
+
+Theorem materialise_shape : forall fuel cs rules ord F ds inferred,
+  NoDup F -> (forall l, Permutation (ord l) l) ->
+  materialise fuel cs rules ord F = Some (ds, inferred) ->
+  exists base, ds = base ++ inferred /\ NoDup ds /\
+    (violates cs F = false -> base = F) /\
+    (violates cs F = true ->
+       maxrepair (violates cs) F base /\
+       forall S, maxrepair (violates cs) F S -> NoDup S -> (length S <= length base)%nat).
+Proof.
+  intros fuel cs rules ord F ds inferred ND Hord H. unfold materialise in H.
+  assert (Hstart : forall base, NoDup base ->
+            match mat_loop fuel cs rules ord base (MState base base [] []) with
+            | Some st => Some (m_ds st, m_inferred st)
+            | None => None
+            end = Some (ds, inferred) -> ds = base ++ inferred /\ NoDup ds).
+  { intros base NB E.
+    destruct (mat_loop fuel cs rules ord base (MState base base [] [])) as [st|] eqn:EL; [|discriminate].
+    inversion E; subst. apply (mat_loop_shape _ _ _ _ _ base) in EL.
+    - destruct EL as [H1 [H2 H3]]. rewrite H1. split; auto.
+    - split; [|split]; simpl; auto. rewrite app_nil_r. reflexivity. }
+  destruct (violates cs F) eqn:EV.
+  - assert (ND' : NoDup (ord F)) by (eapply Permutation_NoDup; [apply Permutation_sym; apply Hord|exact ND]).
+    assert (EF : seteq (ord F) F).
+    { split; intros x Hx. eapply Permutation_in; [apply Hord|exact Hx].
+      eapply Permutation_in; [apply Permutation_sym; apply Hord|exact Hx]. }
+    destruct (repairs_exact cs (ord F) ND') as [R [HR [HN HS]]]. rewrite HR in H.
+    assert (Hne : R <> []).
+    { apply (exact_nonempty (violates cs) (violates_monotone cs) (violates_nil cs) (ord F)). split; auto. }
+    destruct (max_by_len R) as [best|] eqn:EB; [|exfalso; eapply max_by_len_some; eauto].
+    unfold max_by_len in EB. pose proof (max_by_len_max _ _ _ EB) as [Hmax _].
+    apply max_by_len_In in EB. destruct EB as [EB|EB]; [|discriminate].
+    pose proof (proj1 (HS best) EB) as [Hb1 Hb2].
+    assert (NB : NoDup best) by (eapply sublists_NoDup; eauto).
+    destruct (Hstart best NB H) as [G1 G2]. exists best. split; auto. split; auto.
+    split; [discriminate|]. intros _. split.
+    + eapply (maxrepair_seteq _ (violates_monotone cs)); [exact EF|apply seteq_refl|exact Hb2].
+    + intros S HM NS.
+      assert (HM' : maxrepair (violates cs) (ord F) S).
+      { eapply (maxrepair_seteq _ (violates_monotone cs)); [apply seteq_sym; exact EF|apply seteq_refl|exact HM]. }
+      destruct (exact_rep_of (violates cs) (violates_monotone cs) (ord F) R S (conj HN HS) HM') as [S' [I1 I2]].
+      specialize (Hmax S' I1). eapply Nat.le_trans; [|exact Hmax].
+      apply NoDup_incl_length; auto. exact (proj2 I2).
+  - destruct (Hstart F ND H) as [G1 G2]. exists F. split; auto. split; auto. split; auto. discriminate.
+Qed.
